@@ -104,8 +104,15 @@ DELETE FROM safe_update
 # (Seeding at every flagged step and resolving the duplicate rows with MIN
 # keeps a stale 0 of a flagged creator alive in its products,
 # e.g. in the grandchildren of a step that has just released its hold.)
-# Every node has a single creator, so each node is reached along a single path;
-# the MIN(safe)/MIN(safe_nh) aggregation merely keeps the statement robust.
+# The flagged steps of one chain need not be adjacent, though:
+# below a flagged step, an unflagged one can have flagged products again
+# (e.g. a sub-plan that was skipped, its unchanged child plan, and that plan's pending steps).
+# Such a lower step is a seed too, because its creator is not flagged,
+# and it is also reached by the recursion from the step higher up,
+# which is the row to keep: the seed row rests on a cached value that the recursion
+# is replacing in this very statement.
+# `depth` counts the recursion steps from the seed,
+# and for each node the row with the largest depth is written out.
 #
 # `trace` carries four values per node:
 # `safe`/`safe_nh` are that node's own new _safe/_safe_ignoring_hold (what gets written out)
@@ -125,7 +132,7 @@ DELETE FROM safe_update
 # instead of requiring a second downward pass.
 FILL_SAFE_UPDATE = f"""
 INSERT INTO safe_update(i, safe, safe_nh)
-WITH RECURSIVE trace(i, safe, chain, safe_nh, chain_nh) AS (
+WITH RECURSIVE trace(i, safe, chain, safe_nh, chain_nh, depth) AS (
     -- Seed directly at each _check_safe-flagged step,
     -- using its creator's already-computed _safe/_safe_ignoring_hold and state
     -- (a root creator has no `step` row and is treated as trivially safe via COALESCE).
@@ -160,7 +167,8 @@ WITH RECURSIVE trace(i, safe, chain, safe_nh, chain_nh) AS (
             creator_step._safe_ignoring_hold AND
                 creator_step.state IN ({StepState.RUNNING.value}, {StepState.SUCCEEDED.value}),
             1
-        ) AND s.state IN ({StepState.RUNNING.value}, {StepState.SUCCEEDED.value})
+        ) AND s.state IN ({StepState.RUNNING.value}, {StepState.SUCCEEDED.value}),
+        0
     FROM step AS s
     JOIN node AS cnode ON cnode.i = s.node
     LEFT JOIN step AS creator_step ON creator_step.node = cnode.creator
@@ -179,12 +187,14 @@ WITH RECURSIVE trace(i, safe, chain, safe_nh, chain_nh) AS (
         trace.chain AND sp.state IN ({StepState.RUNNING.value}, {StepState.SUCCEEDED.value})
             AND sp._holding = 0,
         trace.chain_nh,
-        trace.chain_nh AND sp.state IN ({StepState.RUNNING.value}, {StepState.SUCCEEDED.value})
+        trace.chain_nh AND sp.state IN ({StepState.RUNNING.value}, {StepState.SUCCEEDED.value}),
+        trace.depth + 1
     FROM trace
     JOIN node AS product ON product.creator = trace.i
     JOIN step AS sp ON sp.node = product.i
 )
-SELECT i, MIN(safe), MIN(safe_nh) FROM trace GROUP BY i
+-- With a single MAX() aggregate, SQLite takes the bare columns from the row holding the maximum.
+SELECT i, safe, safe_nh FROM (SELECT i, safe, safe_nh, MAX(depth) FROM trace GROUP BY i)
 """
 
 
